@@ -3,14 +3,15 @@ package main
 import (
 	"fmt"
 	"go/token"
+	"strings"
 )
 
 // siteAsserts checks the contract's `assert before.<callee>: expr` clauses at a call to <callee> in the function
 // under contract. Names are the source-level variables in scope at the call.
 func (f *Frame) siteAsserts(callee string, pos token.Pos, args ...*Value) {
 	for _, cl := range f.fc.Asserts {
-		if cl.Label != "before."+callee {
-			continue
+		if cl.Label != "before."+callee && !strings.HasPrefix(cl.Label, "before."+callee+".") {
+			continue // `before.<callee>` or `before.<callee>.<name>` (several assertions at one callee)
 		}
 		env := f.contractEnv(f.st, f.entry)
 		for k, a := range args { // the call's own arguments: arg0 is the receiver of a method call
